@@ -20,6 +20,8 @@ initialX, minX, maxX, tolerance, convergenceLimit float64, maxIterations int) (x
 
 		halvingX := maxX - (maxX-minX)*0.5
 		bisectionX := maxX - (maxX-minX)*maxDelta/(maxDelta-minDelta)
+		// rounding can put the secant point an ulp outside the bracket (e.g. when minDelta is 0)
+		bisectionX = math.Max(minX, math.Min(maxX, bisectionX))
 
 		trialXs = append(trialXs, halvingX, bisectionX)
 
